@@ -521,6 +521,58 @@ def _run(ctx, oracle_only=False, scale=1):
     return res
 
 
+def _mutable_tables(ctx):
+    """a user manager that refreshes a user's table IN PLACE (the `permissions` list is the user's, documented as a
+    list): every decision is taken on the table as it is at that moment, whatever was looked up before"""
+    import aioftp
+
+    res = Result()
+    rng = ctx.rng
+
+    async def main():
+        for n in range(ctx.pick(400, 4000)):
+            t1, t2 = gen_table(rng) or [("/", True, True)], gen_table(rng) or [("/", False, False)]
+            p1, p2 = "/" + "/".join(gen_path(rng)), "/" + "/".join(gen_path(rng))
+            how = ("slice-assign", "append", "insert-first", "delete", "extend", "clear-and-extend")[n % 6]
+            user = aioftp.User(permissions=[aioftp.Permission(p, readable=r, writable=w) for p, r, w in t1])
+            new = [aioftp.Permission(p, readable=r, writable=w) for p, r, w in t2]
+            await user.get_permissions(pathlib.PurePosixPath(p1))
+            if how == "slice-assign":
+                user.permissions[:] = new
+            elif how == "append":
+                user.permissions.append(new[0])
+            elif how == "insert-first":
+                user.permissions.insert(0, new[0])
+            elif how == "delete":
+                del user.permissions[rng.randrange(len(user.permissions))]
+            elif how == "extend":
+                user.permissions.extend(new)
+            else:
+                user.permissions.clear()
+                user.permissions.extend(new)
+            now = [(str(e.path), e.readable, e.writable) for e in user.permissions]
+            res.cases += 1
+            res.count("mutable_table:" + how)
+            res.distinct.add(("mutable-table", how, n))
+            inp = {"kind": "table-changed-in-place", "how": how, "table_before": t1, "table_now": now, "looked_up_before": p1, "path": p2}
+            try:
+                got = await user.get_permissions(pathlib.PurePosixPath(p2))
+            except Exception as e:  # noqa
+                res.oracle_failures.append({"input": inp, "what": "get_permissions raised %s after the table was changed in place (%s)" % (type(e).__name__, how), "signature": "C04:nearest-on-a-stale-table"})
+                continue
+            want = expected_index(now, [c for c in p2.split("/") if c]) if now else -1
+            if want == -1:
+                ok = got not in user.permissions and got.readable and got.writable
+            else:
+                ok = got is user.permissions[want] or (str(got.path), got.readable, got.writable) == now[want] and norm_entry(str(got.path)) == norm_entry(now[want][0])
+            if not ok:
+                res.oracle_failures.append({"input": inp, "what": "after the user's table was changed in place (%s) the decision for %r is taken from %r; on the table as it is now the nearest entry is %s" % (
+                    how, p2, (str(got.path), got.readable, got.writable), repr(now[want]) if want >= 0 else "none (default allow-all)"), "signature": "C04:nearest-on-a-stale-table"})
+
+    asyncio.run(main())
+    return res
+
+
 def correspondence(ctx):
     r = _run(ctx)
     from props import c04_wire
@@ -528,6 +580,7 @@ def correspondence(ctx):
     r.merge(c04_wire.run(ctx))
     r.merge(c04_wire.run_late(ctx))
     r.merge(c04_wire.run_pipelined(ctx))
+    r.merge(_mutable_tables(ctx))
     return r
 
 
@@ -538,10 +591,27 @@ def search(ctx, prior):
     r.merge(c04_wire.run(ctx, compare=False))
     r.merge(c04_wire.run_late(ctx))
     r.merge(c04_wire.run_pipelined(ctx))
+    r.merge(_mutable_tables(ctx))
     return r
 
 
 def replay(ctx, doc):
+    if doc["failure"]["input"].get("kind") == "table-changed-in-place":
+        import aioftp
+
+        i = doc["failure"]["input"]
+
+        async def go():
+            mk = lambda t: [aioftp.Permission(p, readable=r, writable=w) for p, r, w in t]  # noqa: E731
+            user = aioftp.User(permissions=mk(i["table_before"]))
+            await user.get_permissions(pathlib.PurePosixPath(i["looked_up_before"]))
+            user.permissions[:] = mk(i["table_now"])
+            got = await user.get_permissions(pathlib.PurePosixPath(i["path"]))
+            want = expected_index([tuple(x) for x in i["table_now"]], [c for c in i["path"].split("/") if c])
+            print("decision from", (str(got.path), got.readable, got.writable), "- nearest entry now:", i["table_now"][want] if want >= 0 else None)
+            return (got is not user.permissions[want]) if want >= 0 else (got in user.permissions)
+
+        return asyncio.run(go())
     if "late_plan" in doc["failure"]["input"]:
         import latewire as LW
         from props import c04_wire
